@@ -566,8 +566,39 @@ func init() {
 			c.OverlayRules("C18")
 			c.ResolvedName("C18")
 			c.LosslessSplit("C18")
+			c.ListRuleApproves("C18")
 		},
 		Explanation: "An account is appended to the listing only below a successful access check of wallet.Name()/account.Name() of that very account, the path filter's match (or no filter) and the rules' approval; the accounts scanned are those of the wallet fetched for the requested path; an iteration skips the append only for {filter mismatch, access refused, no public key, rules not approved}; all requested paths and all accounts are scanned before the result is returned; the account source merges the overlay of dynamically created accounts (full copies of both maps, under the lock) and AddAccount updates both overlay maps; handler entries take name and keys from one account object. See DESIGN.md §5 C18.",
 		Trusted:     append([]string{"regular-expression semantics of the request filter (its anchoring is not grouped; over-inclusive only among permitted accounts)"}, commonTrusted...),
 	})
+}
+
+// ListRuleApproves (C18.O6 rules.list-approves): the lister drops every account for which the rules do not answer
+// APPROVED (an allowed reason to skip in C18.O2), and it hands the rules the whole path list of the request for each
+// candidate. "All permitted accounts are listed" therefore needs the listing rule to approve whatever it is shown: on the
+// pinned design every return of the rules implementation's OnListAccounts is the constant APPROVED. A rule that can
+// refuse makes accounts disappear from a SUCCEEDED response for reasons unrelated to the account.
+func (c *Ctx) ListRuleApproves(prop string) {
+	rule := "C18.O6 rules.list-approves"
+	s := c.Slashing(prop + ".anchors")
+	if !s.OK() {
+		return
+	}
+	fn := c.P.Method(s.RulesImpl, "OnListAccounts")
+	if fn == nil || fn.Blocks == nil {
+		c.R.Anchor(rule, "OnListAccounts", "the rules implementation has no OnListAccounts")
+		return
+	}
+	rets := an.Returns(fn)
+	bad := false
+	for _, ret := range rets {
+		if !an.IsConstInt(an.Result(ret, 0), s.APPROVED) {
+			bad = true
+			c.R.Fail(rule, Fn(fn), c.Pos(ret), "the listing rule can answer something other than APPROVED: "+an.Term(an.Result(ret, 0))+"; the lister silently leaves out every account for which it does (and it is shown all paths of the request for each account)", "OnListAccounts returns APPROVED on every path", nil)
+		}
+	}
+	c.R.Floor(rule, "returns of the listing rule", len(rets), 1)
+	if !bad {
+		c.R.OK(rule, Fn(fn), c.P.FuncPos(fn), "the listing rule approves on every path")
+	}
 }
